@@ -147,6 +147,9 @@ Cond_C12_Iter == (Has /\ Ev.ev = "iter" /\ IsHamt) =>
 \* Length has no error result: when a shard it needs cannot be loaded it must not pass off the entries it did reach
 \* as the count (its failure value is 0, or -1)
 Cond_C12_Length == (Has /\ Ev.ev = "length" /\ IsHamt /\ Ev.failed # <<>>) => Ev.n <= 0
+\* the preloading view needs every shard: an unavailable one makes it fail (never a node that looks complete)
+Cond_C12_Preload == (Has /\ Ev.ev = "opennode" /\ Ev.how = "preload" /\ IsHamt) =>
+    ((~NoFault \/ (Miss \cap (ShardC \ {D.rootC})) # {}) => Ev.e # "nil")
 Cond_C12_IterTerminates == (Has /\ Ev.ev = "iter") => Ev.res \in {"done", "noiter"}
 
 \* ---- C15: the map-node contract on any link list / any well-formed HAMT ----
@@ -197,9 +200,12 @@ Inv_C12_Lookup == Chk("Inv_C12_Lookup", Cond_C12_Lookup)
 Inv_C12_Iter == Chk("Inv_C12_Iter", Cond_C12_Iter)
 Inv_C12_IterTerminates == Chk("Inv_C12_IterTerminates", Cond_C12_IterTerminates)
 Inv_C15_Iter == Chk("Inv_C15_Iter", Cond_C15_Iter)
+Inv_C12_Preload == Chk("Inv_C12_Preload", Cond_C12_Preload)
 Inv_C12_Length == Chk("Inv_C12_Length", Cond_C12_Length)
 Inv_C15_Length == Chk("Inv_C15_Length", Cond_C15_Length)
 Inv_C15_Lookup == Chk("Inv_C15_Lookup", Cond_C15_Lookup)
+\* the same condition as a C12 statement: with several goroutines reaching one unavailable shard each of them reports the load error
+Inv_C12_ConcMissing == Chk("Inv_C12_ConcMissing", Cond_C17_MissingShard)
 Inv_C17_MissingShard == Chk("Inv_C17_MissingShard", Cond_C17_MissingShard)
 Inv_C17_NoRace == Chk("Inv_C17_NoRace", Cond_C17_NoRace)
 Inv_C20_Order == Chk("Inv_C20_Order", Cond_C20_Order)
